@@ -13,9 +13,8 @@ CLAIMED = {
    text="The three arithmetic pieces of the depth window - level formula, report gate, descend gate - are extracted from visit_dir on "
         "every run and proved for all u32 values against the statement's window (level 1 = directly inside the root; reported iff "
         "min/max satisfied), plus the induction step that combines them. Unbounded over the integers involved; the traversal skeleton "
-        "that uses the gates is not verified. Added: every root is traversed once with its own options whatever an earlier root left; a directory is skipped up front only when following symlinks and already visited; ok_to_visit_dir enters a directory iff its own inode is unseen and it is not an unfollowed symlink. Verus, real parse_root_options, every token vector: an option list of depth options (mindepth N, maxdepth N, depth N) yields exactly those depths (defaults 0/0 = unlimited).",
-   note="Trusted: the skeleton of visit_dir around the gates (T5), canonical_path/calc_depth, read_dir. Not covered: exactly-once, order, "
-        "symlinks, parse_roots."),
+        "that uses the gates is not verified. Added: every root is traversed once with its own options whatever an earlier root left; a directory is skipped up front only when following symlinks and already visited; ok_to_visit_dir enters a directory iff its own inode is unseen and it is not an unfollowed symlink. Verus, real parse_root_options, every token vector: an option list of depth options (mindepth N, maxdepth N, depth N) yields exactly those depths (defaults 0/0 = unlimited). Bounded: the WHOLE real visit_dir (verbatim on a scripted six-node, three-level file system) hands an entry to check_file exactly once iff its level lies in the window, for all 16 windows 0..3 x 0..3 and both traversal modes, in dfs / bfs order.",
+   note="Trusted: canonical_path/calc_depth, read_dir and the OS. Not covered: other trees than the scripted one, symlink cycles, I/O errors, ignore files."),
  "C02": dict(engine="F+V+K", ref="5/C02",
    technique="Kani full-domain harnesses on the typed comparison arms of conforms and the BETWEEN desugaring (extracted each run) + Verus contract on the real parse_func_scalar (quoted literal)",
    text="The Int / Float / Bool / DateTime comparison tables of conforms (whole match arms incl. operand binding) and the BETWEEN "
@@ -32,7 +31,7 @@ CLAIMED = {
    technique="Kani full-domain harnesses on the two early-exit conditions of visit_dir (extracted each run) + Verus contract on the real parse_limit",
    text="Both LIMIT early-exit conditions (directory loop, archive-member loop) are proved to be exactly "
         "!buffered && limit > 0 && found >= limit for all inputs: never taken for ordered/aggregated output or limit 0. The real parse_limit: absent LIMIT = 0 = unlimited, `limit N` = the u32 N denotes or an error (Verus). An entry is counted in `found` exactly once iff there is no WHERE or its WHERE holds (prologue of check_file, all inputs); the assembled Query carries the parsed limit, 0 staying unlimited except for a constant-only select list (Parser::parse tail, all outcomes).",
-   note="`order by .. limit N`: the real TopN (verbatim on array-backed stand-ins for BTreeMap / Vec) is proved for every assignment of keys (4 values: all tie patterns) to 3 rows and every limit 0..3 to keep exactly min(N, M) distinct rows whose key sequence is the first N keys of the sorted list, ties at the cut either way; it orders by Ord alone (a key type whose derived PartialOrd disagrees, like Criteria, is handled). Bounded: 3 rows. Trusted: the real B-tree, is_buffered definition."),
+   note="`order by .. limit N`: the real TopN (verbatim on array-backed stand-ins for BTreeMap / Vec) is proved for every assignment of keys (4 values: all tie patterns) to 3 rows and every limit 0..3 to keep exactly min(N, M) distinct rows whose key sequence is the first N keys of the sorted list, ties at the cut either way; it orders by Ord alone (a key type whose derived PartialOrd disagrees, like Criteria, is handled). Bounded: 3 rows. The WHOLE real visit_dir on a scripted file system (with a two-member zip archive) yields exactly min(L, M) rows - a prefix of the unlimited traversal - for every limit, in both traversal modes, also when the limit is reached inside an archive; a buffered query is never cut short. Trusted: the real B-tree, the OS."),
  "C07": dict(engine="V+F", ref="5/C07",
    technique="Verus contracts on the real get_buffer_sum (loop invariant, unbounded rows) and Expr::has_aggregate_function (recursive spec, any depth / width); Kani on the AVG division, on get_variance / get_mean / get_buffer_sum verbatim on a shim row world (powi stubbed), on the divisor fragments, on the prologue and column loops of check_file and on the ungrouped aggregate output block (string-free shim worlds)",
    text="SUM: the real get_buffer_sum, extracted verbatim, is proved to return the mathematical sum over any number of buffered rows of the "
